@@ -750,6 +750,31 @@ func checkC10(p *Program, r *Report) {
 				}
 				r.Add("C10.block", FnName(checker), "every (re-)check matches the transaction against the current filter", checker.Pos(), okAlways, "MatchTxAndUpdate runs on every path through the checker: the filter may have grown since an earlier match")
 				r.Add("C10.block", FnName(checker), "a match re-checks the transactions registered as spending this one", checker.Pos(), okRec, "recursive call on inputs[txid] dominated by a successful MatchTxAndUpdate")
+				// round 7 (C10-agent7-m1): the re-check is about the DEPENDANT — transaction and index of the recursive
+				// call come from the registered entry, none of them is the caller's own (passing the parent's index
+				// records a late-matched child under its parent's position)
+				for _, bb := range checker.Blocks {
+					for _, in := range bb.Instrs {
+						sc, ok := in.(*ssa.Call)
+						if !ok || sc.Call.StaticCallee() != checker {
+							continue
+						}
+						var own []string
+						for ai, a := range sc.Call.Args {
+							if ai == 0 || ai >= len(checker.Params) {
+								continue
+							}
+							if _, isMap := a.Type().Underlying().(*types.Map); isMap {
+								continue
+							}
+							if a == ssa.Value(checker.Params[ai]) {
+								own = append(own, checker.Params[ai].Name())
+							}
+						}
+						r.Add("C10.block", FnName(checker), "the recursive re-check is given the dependant's own transaction and index", sc.Pos(), len(own) == 0,
+							"the caller's own "+strings.Join(own, ", ")+" is passed on")
+					}
+				}
 				// the matched index is recorded on the matched edge
 				okMark := false
 				for _, b := range checker.Blocks {
